@@ -197,6 +197,7 @@ class AddressBase(Base):
     @line.setter
     def line(self, line: str) -> None:
         line = h.init_line(line)
+        addrgroup = self._addrgroup
         if self._is_address_any(line):
             self._line__any()
         elif self._is_address_prefix(line):
@@ -209,6 +210,9 @@ class AddressBase(Base):
             self._line_addrgroup(line)
         else:
             raise ValueError(f"invalid address {line=}")
+        # members belong to the group they were given for
+        if self._addrgroup != addrgroup:
+            self._items = []
 
     @property
     def platform(self) -> str:
